@@ -98,7 +98,9 @@ Create(F) ==
 
 \* ---------------- Level A: CornerTableOK(F, ct) for ct = [opp, m, vc, par]  (functions over corners / sequences)
 RECURSIVE ParStar(_, _, _, _)
-ParStar(par, nv0, v, fuel) == IF v < nv0 \/ fuel = 0 THEN v ELSE ParStar(par, nv0, par[v - nv0 + 1], fuel - 1)
+\* total: a vertex beyond the input ids without a recorded parent maps to nothing (INV never equals an input id)
+ParStar(par, nv0, v, fuel) == IF v < nv0 \/ fuel = 0 THEN v
+                              ELSE IF v - nv0 + 1 > Len(par) THEN INV ELSE ParStar(par, nv0, par[v - nv0 + 1], fuel - 1)
 RECURSIVE Ring(_, _, _, _)
 Ring(o, c, acc, left) == IF c = INV \/ c \in acc THEN acc ELSE Ring(o, IF left THEN SL(o, c) ELSE SR(o, c), acc \cup {c}, left)
 CornerTableOK(F, ct) ==
@@ -118,6 +120,10 @@ CornerTableOK(F, ct) ==
         /\ c0 \in C /\ ct.m[c0] = v
         /\ fan = {c \in C : ct.m[c] = v /\ ~Deg0(F, c \div 3)}
         /\ (SL(ct.opp, c0) = INV \/ Ring(ct.opp, c0, {}, TRUE) = fan)
+   \* the fan of a vertex passes every edge once: two corners of the same table vertex never leave it along the same directed edge (a fan that met
+   \* an edge twice would not be a fan of a manifold neighbourhood -- this is what breaking the non-manifold edges is for)
+   /\ \A c1 \in C : \A c2 \in C :
+        (c1 # c2 /\ ~Deg0(F, c1 \div 3) /\ ~Deg0(F, c2 \div 3) /\ ct.m[c1] = ct.m[c2] /\ ct.m[Nx(c1)] = ct.m[Nx(c2)]) => ct.opp[Pv(c1)] = INV \/ ct.opp[Pv(c2)] = INV
    \* every vertex used by a non-degenerate face has a representative corner
    /\ \A c \in C : ~Deg0(F, c \div 3) => (ct.m[c] \in 0..(Len(ct.vc) - 1) /\ ct.vc[ct.m[c] + 1] # INV)
 =============================================================================
